@@ -172,6 +172,7 @@ def _replay(eng: Engine, path: str) -> int:
 
 
 def _main(eng: Engine, tier: str, seed: int, opts: Any) -> int:
+	core.sweep_stale_scratch()
 	ev = Evidence(eng.prop, tier, seed, eng.level)
 	ev.coverage['rule'] = eng.rule
 	ev.coverage['components'] = {'real': eng.components_real, 'stubbed': eng.components_stubbed}
